@@ -146,6 +146,193 @@ def d1_escaping(chk: Check) -> None:
                        "sections")
 
 
+
+# ---------------------------------------------------------------- D1b -----
+def d1b_separator_always(chk: Check) -> None:
+    """Between a non-empty parent path and the child's key exactly one
+    separator is written, whatever the parent path's last character is.
+    The last character of the parent may be an *escaped* separator that
+    belongs to the parent's key (`a\\.` in dot notation): suppressing the
+    separator after it glues the child key onto the parent key."""
+    prog = chk.prog
+    chk.rule("C07-D1b", "the separator between a parent path and a child "
+             "key is appended under no condition other than 'the parent "
+             "path is not empty'", floor=3)
+    for name in ("search_for_paths", "yield_children"):
+        fi = fn(prog, name)
+        data = fi.params()[2 if name == "search_for_paths" else 1]
+        sep_texts = {"str(pathsep)"}
+        for n in walk_local(fi.node):
+            if isinstance(n, ast.Assign) and src(n.value) == "str(pathsep)":
+                sep_texts.add(src(n.targets[0]))
+        for n in walk_local(fi.node):
+            if not (isinstance(n, ast.AugAssign) and
+                    isinstance(n.op, ast.Add) and
+                    src(n.value) in sep_texts):
+                continue
+            extra = []
+            for f in facts_at(n):
+                if f.kind != "cond":
+                    continue
+                e = f.expr
+                if isinstance(e, ast.Call) and src(e.func) == "isinstance" \
+                        and src(e.args[0]) == data:
+                    continue
+                if src(e) == src(n.target) and f.pol:
+                    continue
+                extra.append(repr(f))
+            text = "{}: {} += separator".format(name, src(n.target))
+            if extra:
+                chk.fail("C07-D1b", fi, n, text,
+                         "the separator is only written when {}: a parent "
+                         "key that ends in an (escaped) separator character "
+                         "swallows its child's key".format(
+                             " and ".join(extra)[:120]))
+            else:
+                chk.ok("C07-D1b", fi, n, text,
+                       "guarded by the non-empty parent path only")
+
+
+# ---------------------------------------------------------------- D8 ------
+def _pool_table(fi: FuncInfo, loop: ast.For, opts: List[str]
+                ) -> Optional[Tuple[str, ...]]:
+    """Which accessor the mapping loop iterates per assignment of the alias
+    options: a tuple of 'items' / 'non_merged_items' over the 2^n cells."""
+    import itertools
+    block = parent(loop)
+    body = None
+    for fld in ("body", "orelse"):
+        b = getattr(block, fld, None)
+        if isinstance(b, list) and loop in b:
+            body = b
+    if body is None:
+        return None
+    before = body[:body.index(loop)]
+    var = src(loop.iter)
+
+    def accessor(e: ast.AST, pe: PEval, env: Dict[str, Any]
+                 ) -> Optional[str]:
+        if isinstance(e, ast.IfExp):
+            t = pe.truth(e.test, env)
+            if t is None:
+                return None
+            return accessor(e.body if t else e.orelse, pe, env)
+        if isinstance(e, ast.Call) and isinstance(e.func, ast.Attribute) \
+                and e.func.attr in ("items", "non_merged_items"):
+            return e.func.attr
+        return None
+
+    def run_block(stmts: List[ast.stmt], pe: PEval, env: Dict[str, Any],
+                  cur: List[Optional[str]]) -> bool:
+        for s_ in stmts:
+            if isinstance(s_, ast.Assign) and src(s_.targets[0]) == var:
+                cur[0] = accessor(s_.value, pe, env)
+                if cur[0] is None:
+                    return False
+            elif isinstance(s_, ast.If) and any(
+                    isinstance(x, ast.Assign) and src(x.targets[0]) == var
+                    for x in ast.walk(s_)):
+                t = pe.truth(s_.test, env)
+                if t is None:
+                    return False
+                if not run_block(s_.body if t else s_.orelse, pe, env, cur):
+                    return False
+        return True
+
+    cells = []
+    for vals in itertools.product((False, True), repeat=len(opts)):
+        pe = PEval()
+        env: Dict[str, Any] = {o: Const(v) for o, v in zip(opts, vals)}
+        if isinstance(loop.iter, ast.Name):
+            cur: List[Optional[str]] = [None]
+            if not run_block(before, pe, env, cur) or cur[0] is None:
+                return None
+            cells.append(cur[0])
+        else:
+            a = accessor(loop.iter, pe, env)
+            if a is None:
+                return None
+            cells.append(a)
+    return tuple(cells)
+
+
+def d8_same_children(chk: Check) -> None:
+    """The search and the expansion helper must agree on what the children
+    of a mapping are.  Entries contributed by a YAML merge key are reached
+    through an alias, so both walk `items()` exactly when either alias
+    option is on and `non_merged_items()` otherwise; a walker that consults
+    fewer options expands a matched parent to fewer leaves than the search
+    itself reports below it."""
+    prog = chk.prog
+    chk.rule("C07-D8", "search_for_paths and yield_children iterate the same "
+             "entries of a mapping for every setting of the alias options "
+             "(merged-in entries iff some alias option is on)", floor=2)
+    opts = ["include_key_aliases", "include_value_aliases"]
+    want = ("non_merged_items", "items", "items", "items")
+    seen = 0
+    for name in ("search_for_paths", "yield_children"):
+        fi = fn(prog, name)
+        data = fi.params()[2 if name == "search_for_paths" else 1]
+        for n in walk_local(fi.node):
+            if not (isinstance(n, ast.For) and isinstance(n.target, ast.Tuple)
+                    and len(n.target.elts) == 2):
+                continue
+            it = n.iter
+            def _acc(e: ast.AST) -> bool:
+                return any(isinstance(c, ast.Attribute) and
+                           c.attr in ("items", "non_merged_items") and
+                           src(c.value) == data
+                           for c in ast.walk(e))
+            is_pool = (isinstance(it, ast.Name) and any(
+                isinstance(a, ast.Assign) and src(a.targets[0]) == it.id
+                and _acc(a.value) for a in walk_local(fi.node))) or (
+                    isinstance(it, (ast.Call, ast.IfExp)) and _acc(it))
+            if isinstance(it, ast.Call) and src(it.func) == "enumerate":
+                continue
+            if not is_pool:
+                continue
+            local_opts = []
+            for o in opts:
+                nm = o if o in fi.params() else None
+                for a in walk_local(fi.node):
+                    if isinstance(a, (ast.Assign, ast.AnnAssign)) and \
+                            isinstance(a.value, ast.Call) and \
+                            src(a.value.func).endswith(".pop") and \
+                            a.value.args and \
+                            isinstance(a.value.args[0], ast.Constant) and \
+                            a.value.args[0].value == o:
+                        nm = src(a.targets[0] if isinstance(a, ast.Assign)
+                                 else a.target)
+                if nm is None:
+                    raise AnalysisError("{} does not take the option {}"
+                                        .format(name, o))
+                local_opts.append(nm)
+            table = _pool_table(fi, n, local_opts)
+            text = "{}: for {} in {}".format(name, src(n.target),
+                                             src(it)[:30])
+            if table is None:
+                raise AnalysisError("cannot decide what {} iterates"
+                                    .format(text))
+            seen += 1
+            if table == want:
+                chk.ok("C07-D8", fi, n, text,
+                       "non_merged_items() with both alias options off, "
+                       "items() otherwise")
+            else:
+                cells = ["{}={}/{}".format("ka,va", int(i // 2), int(i % 2))
+                         for i in range(4) if table[i] != want[i]]
+                chk.fail("C07-D8", fi, n, text,
+                         "with ({}) this walker iterates {} where its "
+                         "sibling iterates {}: merged-in entries are "
+                         "searched by one and not expanded by the other"
+                         .format("; ".join(cells),
+                                 [table[i] for i in range(4)
+                                  if table[i] != want[i]][0],
+                                 [want[i] for i in range(4)
+                                  if table[i] != want[i]][0]))
+    if seen < 2:
+        raise AnalysisError("mapping loops of the two walkers not found")
+
 # ---------------------------------------------------------------- D2 ------
 def d2_inversion(chk: Check) -> None:
     prog = chk.prog
@@ -592,6 +779,25 @@ def d5_options(chk: Check) -> None:
                     problems.append("`{}` bound to `{}` instead of the "
                                     "caller's `{}`".format(opt, passed[opt],
                                                            mine))
+            # the record of anchors seen so far is one shared list: it is
+            # handed on as the object itself, so that what the callee
+            # records is known to the caller's later iterations
+            seen_par = [p for p in cfi.params() if "seen" in p]
+            callee_pos = [i for i, p in enumerate(fns[callee].params())
+                          if "seen" in p]
+            if seen_par and callee_pos:
+                i = callee_pos[0]
+                arg = c.args[i] if i < len(c.args) else next(
+                    (k.value for k in c.keywords
+                     if k.arg == fns[callee].params()[i]), None)
+                if arg is None or src(arg) != seen_par[0]:
+                    problems.append(
+                        "the seen-anchors record is passed as `{}` instead "
+                        "of the caller's own list `{}`: anchors met by the "
+                        "callee are unknown afterwards and their aliases "
+                        "are reported as originals".format(
+                            src(arg) if arg is not None else "<omitted>",
+                            seen_par[0]))
             text = "{} -> {} @{}".format(cname, callee, "call")
             if problems:
                 chk.fail("C07-D5", cfi, c, text, "; ".join(problems))
@@ -812,6 +1018,11 @@ def d4_once(chk: Check) -> None:
 
 def run(chk: Check) -> None:
     d1_escaping(chk)
+    d1b_separator_always(chk)
+    d8_same_children(chk)
+    from rules.shared import shared_state_rule
+    shared_state_rule(chk, "C07-D9", (PATHS, "yamlpath/common/searches.py"),
+                      8)
     d2_inversion(chk)
     d3_search_anchor(chk)
     d3_consumer(chk)
